@@ -1440,6 +1440,14 @@ fn metrics_line(out: &mut Out, pts: &[Point3D]) {
         ),
     };
     out.case(&format!("loop.metrics {}", hpts(pts)), &res);
+    // the same outline as a polygon (`Polygon3D::new`): its area and normal are the outer loop's, its outer centroid the mean
+    let pres = match catch(|| build_raw(pts).map(|l| Polygon3D::new(l))) {
+        Err(_) => "panic".to_string(),
+        Ok(None) => "build-err".to_string(),
+        Ok(Some(Err(_))) => "err".to_string(),
+        Ok(Some(Ok(pg))) => format!("ok {} {} {}", hx(pg.area()), hv(pg.normal()), hp(pg.outer_centroid())),
+    };
+    out.case(&format!("poly.metrics {}", hpts(pts)), &pres);
 }
 
 pub fn c10(r: &mut Rng, out: &mut Out, n: usize) {
